@@ -200,27 +200,85 @@ theorem create_sim {b : Both} (h : Sim b) (k : Key) (vals : List Cell) (hok : Op
       · intro l
         rw [Db.setRow_links, ← h.view]; rfl
 
-#exit
+/-- the object written by an assignment to a non-new object -/
+def setObjOf (o : Obj) (c : Nat) (v : Cell) : Obj :=
+  { status := .modified, vals := o.vals.set c v, wbits := if o.wbits.contains c then o.wbits else o.wbits ++ [c] }
+
+theorem set_step (w : World) (k : Key) (c : Nat) (v : Cell) :
+    step w (.set k c v) = ((setAttr w k c v).1, (setAttr w k c v).2, []) := rfl
+
+theorem setAttr_none {w : World} {k : Key} {c : Nat} {v : Cell} (ho : w.cache.objs k = none) :
+    setAttr w k c v = (w, .refused .noSuchObject) := by simp [setAttr, ho]
+
+theorem setAttr_del {w : World} {k : Key} {c : Nat} {v : Cell} {o : Obj} (ho : w.cache.objs k = some o)
+    (hd : o.status.isDel = true) : setAttr w k c v = (w, .refused .objectDeleted) := by simp [setAttr, ho, hd]
+
+theorem setAttr_created {w : World} {k : Key} {c : Nat} {v : Cell} {o : Obj} (ho : w.cache.objs k = some o)
+    (hc : o.status = .created) :
+    setAttr w k c v = ({ w with cache := w.cache.setObj k { o with vals := o.vals.set c v } }, .ok) := by
+  simp [setAttr, ho, hc, Status.isDel]
+
+theorem setAttr_modified {w : World} {k : Key} {c : Nat} {v : Cell} {o : Obj} (ho : w.cache.objs k = some o)
+    (hm : o.status = .modified) :
+    setAttr w k c v = ({ w with cache := w.cache.setObj k (setObjOf o c v) }, .ok) := by
+  simp [setAttr, ho, hm, Status.isDel, setObjOf]
+
+theorem setAttr_clean {w : World} {k : Key} {c : Nat} {v : Cell} {o : Obj} (ho : w.cache.objs k = some o)
+    (hd : o.status.isDel = false) (hc : o.status ≠ .created) (hm : o.status ≠ .modified) :
+    setAttr w k c v = ({ w with cache := { (w.cache.setObj k (setObjOf o c v)).push k with modified := true } }, .ok) := by
+  simp [setAttr, ho, hd, hc, hm, setObjOf]
+
+theorem setObjOf_ok {txn : Db} {k : Key} {o : Obj} (c : Nat) (v : Cell) (h : ObjOk txn k o)
+    (hd : o.status.isDel = false) (hc : o.status ≠ .created) : ObjOk txn k (setObjOf o c v) := by
+  unfold ObjOk at h ⊢
+  have hcw : c ∈ (setObjOf o c v).wbits := by
+    unfold setObjOf
+    by_cases hcc : c ∈ o.wbits
+    · simp [hcc]
+    · simp [hcc]
+  have hsub : ∀ c', c' ∉ (setObjOf o c v).wbits → c' ∉ o.wbits := by
+    intro c' hc'
+    unfold setObjOf at hc'
+    by_cases hcc : c ∈ o.wbits
+    · simpa [hcc] using hc'
+    · simp [hcc] at hc'; exact hc'.1
+  have hset : ∀ c', c' ∉ (setObjOf o c v).wbits → (setObjOf o c v).vals c' = o.vals c' := by
+    intro c' hc'
+    have : c' ≠ c := by rintro rfl; exact hc' hcw
+    simp [setObjOf, Row.set, this]
+  have hst : (setObjOf o c v).status = .modified := rfl
+  rw [hst]
+  cases hs : o.status <;> simp [hs, Status.isDel] at h hd hc
+  · exact ⟨o.vals, h, fun c' hc' => (hset c' hc').symm⟩
+  · obtain ⟨row, hr, hag⟩ := h
+    exact ⟨row, hr, fun c' hc' => (hag c' (hsub c' hc')).trans (hset c' hc').symm⟩
+  · exact ⟨o.vals, h, fun c' hc' => (hset c' hc').symm⟩
+  · exact ⟨o.vals, h, fun c' hc' => (hset c' hc').symm⟩
+
 theorem set_sim {b : Both} (h : Sim b) (k : Key) (c : Nat) (v : Cell) : Sim (stepBoth b (.set k c v)) := by
-  unfold stepBoth step setAttr
+  unfold stepBoth
+  rw [set_step]
   cases ho : b.w.cache.objs k with
-  | none => simp [specStep]; exact h
+  | none => rw [setAttr_none ho]; exact h
   | some o =>
-    by_cases hd : o.status.isDel = true
-    · simp [hd, specStep]; exact h
-    · have hrow : b.s.working.rows k = some o.vals := by
+    cases hd : o.status.isDel with
+    | true => rw [setAttr_del ho hd]; exact h
+    | false =>
+      have hrow : b.s.working.rows k = some o.vals := by
         rw [← h.view, abs_rows]; unfold absRow
         cases hs : o.status <;> simp [ho, hs, Status.isDel] at hd ⊢
       have hview : ∀ (w' : World), (∀ k', absRow w' k' = if k' = k then some (o.vals.set c v) else absRow b.w k') →
-          (∀ l, member w' l = member b.w l) → abs w' = (specApply b.s (.set k c v)).working := by
+          (∀ l, member w' l = member b.w l) → abs w' = b.s.working.setRow k (some (o.vals.set c v)) := by
         intro w' h1 h2
-        simp only [specApply, hrow]
         apply Db.ext'
         · intro k'; rw [abs_rows, h1 k', Db.setRow_rows, ← h.view, abs_rows]
         · intro l; rw [abs_links, h2 l, Db.setRow_links, ← h.view, abs_links]
-      simp only [hd]
+      have hspec : specStep b.s (.set k c v) .ok = { b.s with working := b.s.working.setRow k (some (o.vals.set c v)) } := by
+        simp [specStep, specApply, hrow]
       by_cases hc : o.status = .created
-      · simp only [hc, if_true]
+      · rw [setAttr_created ho hc]
+        dsimp only
+        rw [hspec]
         refine ⟨⟨⟨?_, ?_, h.inv.q.queueNodup, ?_⟩, ?_, h.inv.addedFresh, h.inv.addedNodup, h.inv.removedIn⟩, h.committed, ?_⟩
         · intro k' o' ho'
           by_cases hk : k' = k
@@ -230,7 +288,7 @@ theorem set_sim {b : Both} (h : Sim b) (k : Key) (c : Nat) (v : Cell) : Sim (ste
           · simp [hk] at ho'; exact h.inv.q.objs k' o' ho'
         · intro k' hk'
           by_cases hk : k' = k
-          · subst hk; exact ⟨_, by simp, by simp [hc, Status.pending]⟩
+          · subst hk; exact ⟨{ o with vals := o.vals.set c v }, by simp, by simp [hc, Status.pending]⟩
           · obtain ⟨o', ho', hp'⟩ := h.inv.q.queueMem k' hk'
             exact ⟨o', by simp [hk, ho'], hp'⟩
         · intro k' o' ho' hp'
@@ -240,59 +298,26 @@ theorem set_sim {b : Both} (h : Sim b) (k : Key) (c : Nat) (v : Cell) : Sim (ste
         · intro hm
           obtain ⟨c1, c2, c3⟩ := h.inv.clean hm
           have := c1 k o ho; simp [hc, Status.pending] at this
-        · simp only [specStep]
+        · show abs _ = b.s.working.setRow k (some (o.vals.set c v))
           apply hview
           · intro k'; unfold absRow
             by_cases hk : k' = k
             · subst hk; simp [hc]
             · simp [hk]
           · intro l; rfl
-      · simp only [hc, if_false]
-        have hobj : ∀ (o' : Obj), o' = { status := .modified, vals := o.vals.set c v,
-            wbits := if o.wbits.contains c then o.wbits else o.wbits ++ [c] } → ObjOk b.w.txn k o' := by
-          intro o' he; subst he
-          have := h.inv.q.objs k o ho
-          unfold ObjOk at this ⊢
-          have hcw : c ∈ (if o.wbits.contains c then o.wbits else o.wbits ++ [c]) := by
-            by_cases hcc : o.wbits.contains c = true
-            · simp [hcc]; simpa using hcc
-            · simp [hcc]
-          have hsub : ∀ c', c' ∉ (if o.wbits.contains c then o.wbits else o.wbits ++ [c]) → c' ∉ o.wbits := by
-            intro c' hc'
-            by_cases hcc : o.wbits.contains c = true
-            · simpa [hcc] using hc'
-            · simp [hcc] at hc'; exact hc'.1
-          simp only []
-          cases hs : o.status <;> simp [hs, Status.isDel] at this hd hc
-          · -- loaded
-            refine ⟨o.vals, this, ?_⟩
-            intro c' hc'
-            have : c' ≠ c := by rintro rfl; exact hc' hcw
-            simp [Row.set, this]
-          · -- modified
-            obtain ⟨row, hr, hag⟩ := this
-            refine ⟨row, hr, ?_⟩
-            intro c' hc'
-            have hne : c' ≠ c := by rintro rfl; exact hc' hcw
-            simp [Row.set, hne, hag c' (hsub c' hc')]
-          · refine ⟨o.vals, this, ?_⟩
-            intro c' hc'
-            have : c' ≠ c := by rintro rfl; exact hc' hcw
-            simp [Row.set, this]
-          · refine ⟨o.vals, this, ?_⟩
-            intro c' hc'
-            have : c' ≠ c := by rintro rfl; exact hc' hcw
-            simp [Row.set, this]
+      · have hobj := setObjOf_ok c v (h.inv.q.objs k o ho) hd hc
         by_cases hmo : o.status = .modified
-        · simp only [hmo, if_true]
+        · rw [setAttr_modified ho hmo]
+          dsimp only
+          rw [hspec]
           refine ⟨⟨⟨?_, ?_, h.inv.q.queueNodup, ?_⟩, ?_, h.inv.addedFresh, h.inv.addedNodup, h.inv.removedIn⟩, h.committed, ?_⟩
           · intro k' o' ho'
             by_cases hk : k' = k
-            · subst hk; simp at ho'; exact hobj o' ho'.symm
+            · subst hk; simp at ho'; subst ho'; exact hobj
             · simp [hk] at ho'; exact h.inv.q.objs k' o' ho'
           · intro k' hk'
             by_cases hk : k' = k
-            · subst hk; exact ⟨_, by simp, by simp [Status.pending]⟩
+            · subst hk; exact ⟨setObjOf o c v, by simp, by simp [setObjOf, Status.pending]⟩
             · obtain ⟨o', ho', hp'⟩ := h.inv.q.queueMem k' hk'
               exact ⟨o', by simp [hk, ho'], hp'⟩
           · intro k' o' ho' hp'
@@ -302,14 +327,16 @@ theorem set_sim {b : Both} (h : Sim b) (k : Key) (c : Nat) (v : Cell) : Sim (ste
           · intro hm
             obtain ⟨c1, c2, c3⟩ := h.inv.clean hm
             have := c1 k o ho; simp [hmo, Status.pending] at this
-          · simp only [specStep]
+          · show abs _ = b.s.working.setRow k (some (o.vals.set c v))
             apply hview
             · intro k'; unfold absRow
               by_cases hk : k' = k
-              · subst hk; simp
+              · subst hk; simp [setObjOf]
               · simp [hk]
             · intro l; rfl
-        · simp only [hmo, if_false]
+        · rw [setAttr_clean ho hd hc hmo]
+          dsimp only
+          rw [hspec]
           have hnp : o.status.pending = false := by
             cases hs : o.status <;> simp [hs, Status.isDel, Status.pending] at hd hc hmo ⊢
           have hnq : some k ∉ b.w.cache.queue :=
@@ -317,50 +344,78 @@ theorem set_sim {b : Both} (h : Sim b) (k : Key) (c : Nat) (v : Cell) : Sim (ste
           refine ⟨⟨⟨?_, ?_, ?_, ?_⟩, by simp, h.inv.addedFresh, h.inv.addedNodup, h.inv.removedIn⟩, h.committed, ?_⟩
           · intro k' o' ho'
             by_cases hk : k' = k
-            · subst hk; simp at ho'; exact hobj o' ho'.symm
+            · subst hk; simp at ho'; subst ho'; exact hobj
             · simp [hk] at ho'; exact h.inv.q.objs k' o' ho'
           · intro k' hk'
-            simp at hk'
             by_cases hk : k' = k
-            · subst hk; exact ⟨_, by simp, by simp [Status.pending]⟩
-            · obtain ⟨o', ho', hp'⟩ := h.inv.q.queueMem k' (by simpa [hk] using hk')
+            · subst hk; exact ⟨setObjOf o c v, by simp, by simp [setObjOf, Status.pending]⟩
+            · have hk'' : some k' ∈ b.w.cache.queue := by simpa [hk] using hk'
+              obtain ⟨o', ho', hp'⟩ := h.inv.q.queueMem k' hk''
               exact ⟨o', by simp [hk, ho'], hp'⟩
           · simpa using nodup_push h.inv.q.queueNodup hnq
           · intro k' o' ho' hp'
             by_cases hk : k' = k
             · subst hk; simp
-            · simp [hk] at ho'; simp; exact Or.inl (h.inv.q.pendingQueued k' o' ho' hp')
-          · simp only [specStep]
+            · simp [hk] at ho'
+              have := h.inv.q.pendingQueued k' o' ho' hp'
+              simp [this]
+          · show abs _ = b.s.working.setRow k (some (o.vals.set c v))
             apply hview
             · intro k'; unfold absRow
               by_cases hk : k' = k
-              · subst hk; simp
+              · subst hk; simp [setObjOf]
               · simp [hk]
             · intro l; rfl
 
+theorem delete_step (w : World) (k : Key) :
+    step w (.delete k) = ((deleteObj w k).1, (deleteObj w k).2, []) := rfl
+
+theorem deleteObj_none {w : World} {k : Key} (ho : w.cache.objs k = none) :
+    deleteObj w k = (w, .refused .noSuchObject) := by simp [deleteObj, ho]
+
+theorem deleteObj_del {w : World} {k : Key} {o : Obj} (ho : w.cache.objs k = some o) (hd : o.status.isDel = true) :
+    deleteObj w k = (w, .ok) := by simp [deleteObj, ho, hd]
+
+theorem deleteObj_created {w : World} {k : Key} {o : Obj} (ho : w.cache.objs k = some o) (hc : o.status = .created) :
+    deleteObj w k = ({ w with cache := (w.cache.clearSlot k).setObj k { o with status := .cancelled } }, .ok) := by
+  simp [deleteObj, ho, hc, Status.isDel]
+
+theorem deleteObj_other {w : World} {k : Key} {o : Obj} (ho : w.cache.objs k = some o) (hd : o.status.isDel = false)
+    (hc : o.status ≠ .created) :
+    deleteObj w k = ({ w with cache := { (((if o.status = .modified then w.cache.clearSlot k else w.cache).setObj k
+        { o with status := .markedToDelete }).push k) with modified := true } }, .ok) := by
+  simp [deleteObj, ho, hd, hc]
+
 theorem delete_sim {b : Both} (h : Sim b) (k : Key) : Sim (stepBoth b (.delete k)) := by
-  unfold stepBoth step deleteObj
+  unfold stepBoth
+  rw [delete_step]
   cases ho : b.w.cache.objs k with
-  | none => simp [specStep]; exact h
+  | none => rw [deleteObj_none ho]; exact h
   | some o =>
     have hview : ∀ (w' : World), (∀ k', absRow w' k' = if k' = k then none else absRow b.w k') →
-        (∀ l, member w' l = member b.w l) → abs w' = (specApply b.s (.delete k)).working := by
+        (∀ l, member w' l = member b.w l) → abs w' = b.s.working.setRow k none := by
       intro w' h1 h2
-      simp only [specApply]
       apply Db.ext'
       · intro k'; rw [abs_rows, h1 k', Db.setRow_rows, ← h.view, abs_rows]
       · intro l; rw [abs_links, h2 l, Db.setRow_links, ← h.view, abs_links]
-    by_cases hd : o.status.isDel = true
-    · simp only [hd, if_true, specStep]
+    have hspec : specStep b.s (.delete k) .ok = { b.s with working := b.s.working.setRow k none } := rfl
+    cases hd : o.status.isDel with
+    | true =>
+      rw [deleteObj_del ho hd]
+      dsimp only
+      rw [hspec]
       refine ⟨h.inv, h.committed, ?_⟩
+      show abs b.w = b.s.working.setRow k none
       apply hview
       · intro k'; by_cases hk : k' = k
         · subst hk; unfold absRow; cases hs : o.status <;> simp [ho, hs, Status.isDel] at hd ⊢
         · simp [hk]
       · intro l; rfl
-    · simp only [hd]
+    | false =>
       by_cases hc : o.status = .created
-      · simp only [hc, if_true]
+      · rw [deleteObj_created ho hc]
+        dsimp only
+        rw [hspec]
         refine ⟨⟨⟨?_, ?_, ?_, ?_⟩, ?_, h.inv.addedFresh, h.inv.addedNodup, h.inv.removedIn⟩, h.committed, ?_⟩
         · intro k' o' ho'
           by_cases hk : k' = k
@@ -369,36 +424,38 @@ theorem delete_sim {b : Both} (h : Sim b) (k : Key) : Sim (stepBoth b (.delete k
             unfold ObjOk at this ⊢; simpa [hc] using this
           · simp [hk] at ho'; exact h.inv.q.objs k' o' ho'
         · intro k' hk'
-          simp only [Cache.setObj_queue, Cache.clearSlot] at hk'
-          obtain ⟨hk1, hk2⟩ := mem_clearSlot.mp hk'
+          have hk'' : some k' ∈ b.w.cache.queue.map (fun s => if s = some k then none else s) := hk'
+          obtain ⟨hk1, hk2⟩ := mem_clearSlot.mp hk''
           obtain ⟨o', ho', hp'⟩ := h.inv.q.queueMem k' hk1
           exact ⟨o', by simp [hk2, ho'], hp'⟩
-        · simpa [Cache.clearSlot] using nodup_clearSlot k h.inv.q.queueNodup
+        · exact nodup_clearSlot k h.inv.q.queueNodup
         · intro k' o' ho' hp'
           by_cases hk : k' = k
           · subst hk; simp at ho'; subst ho'; simp [Status.pending] at hp'
           · simp [hk] at ho'
-            simp only [Cache.setObj_queue, Cache.clearSlot]
+            show some k' ∈ b.w.cache.queue.map (fun s => if s = some k then none else s)
             exact mem_clearSlot.mpr ⟨h.inv.q.pendingQueued k' o' ho' hp', hk⟩
         · intro hm
-          obtain ⟨c1, c2, c3⟩ := h.inv.clean (by simpa using hm)
+          obtain ⟨c1, c2, c3⟩ := h.inv.clean hm
           have := c1 k o ho; simp [hc, Status.pending] at this
-        · simp only [specStep]
+        · show abs _ = b.s.working.setRow k none
           apply hview
           · intro k'; unfold absRow
             by_cases hk : k' = k
             · subst hk; simp
             · simp [hk]
           · intro l; rfl
-      · simp only [hc, if_false]
+      · rw [deleteObj_other ho hd hc]
+        dsimp only
+        rw [hspec]
         -- the queue after the optional hole: k is not in it
-        let c0 : Cache := if o.status = .modified then b.w.cache.clearSlot k else b.w.cache
-        have hc0objs : c0.objs = b.w.cache.objs := by simp only [c0]; split <;> rfl
-        have hc0added : c0.added = b.w.cache.added := by simp only [c0]; split <;> rfl
-        have hc0removed : c0.removed = b.w.cache.removed := by simp only [c0]; split <;> rfl
+        generalize hc0 : (if o.status = .modified then b.w.cache.clearSlot k else b.w.cache) = c0
+        have hc0objs : c0.objs = b.w.cache.objs := by subst hc0; split <;> rfl
+        have hc0added : c0.added = b.w.cache.added := by subst hc0; split <;> rfl
+        have hc0removed : c0.removed = b.w.cache.removed := by subst hc0; split <;> rfl
         have hc0mem : ∀ k', some k' ∈ c0.queue ↔ some k' ∈ b.w.cache.queue ∧ k' ≠ k := by
           intro k'
-          simp only [c0]
+          subst hc0
           split
           · exact mem_clearSlot
           · rename_i hmo
@@ -411,11 +468,10 @@ theorem delete_sim {b : Both} (h : Sim b) (k : Key) : Sim (stepBoth b (.delete k
               cases hs : o.status <;> simp [hs, Status.isDel, Status.pending] at hd hc hmo hp'
             · exact fun hm => hm.1
         have hc0nd : (c0.queue.filterMap id).Nodup := by
-          simp only [c0]; split
+          subst hc0; split
           · exact nodup_clearSlot k h.inv.q.queueNodup
           · exact h.inv.q.queueNodup
         have hknot : some k ∉ c0.queue := fun hm => ((hc0mem k).mp hm).2 rfl
-        show Sim ⟨{ b.w with cache := { (c0.setObj k { o with status := .markedToDelete }).push k with modified := true } }, _⟩
         refine ⟨⟨⟨?_, ?_, ?_, ?_⟩, by simp, by simpa [hc0added] using h.inv.addedFresh,
           by simpa [hc0added] using h.inv.addedNodup, by simpa [hc0removed] using h.inv.removedIn⟩, h.committed, ?_⟩
         · intro k' o' ho'
@@ -423,10 +479,10 @@ theorem delete_sim {b : Both} (h : Sim b) (k : Key) : Sim (stepBoth b (.delete k
           · subst hk; simp at ho'; subst ho'; simp [ObjOk]
           · simp [hk, hc0objs] at ho'; exact h.inv.q.objs k' o' ho'
         · intro k' hk'
-          simp at hk'
           by_cases hk : k' = k
-          · subst hk; exact ⟨_, by simp, by simp [Status.pending]⟩
-          · have := (hc0mem k').mp (by simpa [hk] using hk')
+          · subst hk; exact ⟨{ o with status := .markedToDelete }, by simp, by simp [Status.pending]⟩
+          · have hk'' : some k' ∈ c0.queue := by simpa [hk] using hk'
+            have := (hc0mem k').mp hk''
             obtain ⟨o', ho', hp'⟩ := h.inv.q.queueMem k' this.1
             exact ⟨o', by simp [hk, hc0objs, ho'], hp'⟩
         · simpa using nodup_push hc0nd hknot
@@ -434,21 +490,15 @@ theorem delete_sim {b : Both} (h : Sim b) (k : Key) : Sim (stepBoth b (.delete k
           by_cases hk : k' = k
           · subst hk; simp
           · simp [hk, hc0objs] at ho'
-            simp; exact Or.inl ((hc0mem k').mpr ⟨h.inv.q.pendingQueued k' o' ho' hp', hk⟩)
-        · simp only [specStep]
+            have := (hc0mem k').mpr ⟨h.inv.q.pendingQueued k' o' ho' hp', hk⟩
+            simp [this]
+        · show abs _ = b.s.working.setRow k none
           apply hview
           · intro k'; unfold absRow
             by_cases hk : k' = k
             · subst hk; simp
             · simp [hk, hc0objs]
           · intro l; simp [member, hc0added, hc0removed]
-
-theorem alive_none {w : World} {k : Key} (h : alive w k = none) :
-    ∃ o, w.cache.objs k = some o ∧ o.status.isDel = false := by
-  unfold alive at h
-  cases ho : w.cache.objs k with
-  | none => simp [ho] at h
-  | some o => simp [ho] at h; exact ⟨o, rfl, h⟩
 
 /-- a change of `added` / `removed` / `modified` that keeps the link-level clauses of the invariant -/
 theorem inv_links {w : World} (h : Inv w) (added removed : List Link)
@@ -463,48 +513,65 @@ theorem link_view {b : Both} (h : Sim b) (l : Link) (v : Bool) (w' : World)
   · intro k; rw [abs_rows, hr k, Db.setLink_rows, ← h.view, abs_rows]
   · intro l'; rw [abs_links, hl l', Db.setLink_links, ← h.view, abs_links]
 
+theorem link_step (w : World) (l : Link) : step w (.link l) = ((linkOp w l).1, (linkOp w l).2, []) := rfl
+theorem unlink_step (w : World) (l : Link) : step w (.unlink l) = ((unlinkOp w l).1, (unlinkOp w l).2, []) := rfl
+
+theorem contains_filter_ne {ls : List Link} {l l' : Link} (h : l' ≠ l) :
+    (ls.filter (fun x => decide (x ≠ l))).contains l' = ls.contains l' := by
+  rw [Bool.eq_iff_iff]; simp [List.mem_filter, h]
+
+theorem contains_true {ls : List Link} {l : Link} (h : l ∈ ls) : ls.contains l = true := by simpa using h
+theorem contains_false {ls : List Link} {l : Link} (h : l ∉ ls) : ls.contains l = false := by simpa using h
+
 theorem link_sim {b : Both} (h : Sim b) (l : Link) : Sim (stepBoth b (.link l)) := by
-  unfold stepBoth step linkOp
+  unfold stepBoth
+  rw [link_step]
+  have hspec : specStep b.s (.link l) .ok = { b.s with working := b.s.working.setLink l true } := rfl
   cases ha : alive b.w l.a with
-  | some e => simp [specStep]; exact h
+  | some e =>
+    have : linkOp b.w l = (b.w, .refused e) := by simp [linkOp, ha]
+    rw [this]; exact h
   | none =>
     cases hb : alive b.w l.b with
-    | some e => simp [specStep]; exact h
+    | some e =>
+      have : linkOp b.w l = (b.w, .refused e) := by simp [linkOp, ha, hb]
+      rw [this]; exact h
     | none =>
-      simp only []
-      by_cases hm : member b.w l = true
-      · simp only [hm, if_true, specStep, specApply]
+      cases hm : member b.w l with
+      | true =>
+        have : linkOp b.w l = ({ b.w with cache := { b.w.cache with modified := true } }, .ok) := by simp [linkOp, ha, hb, hm]
+        rw [this]; dsimp only; rw [hspec]
         refine ⟨inv_links h.inv _ _ h.inv.addedFresh h.inv.addedNodup h.inv.removedIn, h.committed, ?_⟩
         apply link_view h l true
         · intro k; rfl
         · intro l'; by_cases hl : l' = l
           · subst hl; simpa [member] using hm
           · simp [hl, member]
-      · simp only [hm]
-        by_cases hr : b.w.cache.removed.contains l = true
-        · simp only [hr, if_true, specStep, specApply]
-          have hrm : l ∈ b.w.cache.removed := by simpa using hr
+      | false =>
+        by_cases hrm : l ∈ b.w.cache.removed
+        · have : linkOp b.w l = ({ b.w with cache := { b.w.cache with removed := b.w.cache.removed.filter (· ≠ l), modified := true } }, .ok) := by
+            simp [linkOp, ha, hb, hm, hrm]
+          rw [this]; dsimp only; rw [hspec]
           refine ⟨inv_links h.inv _ _ h.inv.addedFresh h.inv.addedNodup
             (fun l' hl' => h.inv.removedIn l' (List.mem_filter.mp hl').1), h.committed, ?_⟩
           apply link_view h l true
           · intro k; rfl
           · intro l'; by_cases hl : l' = l
             · subst hl; simp [member, h.inv.removedIn l' hrm]
-            · have : (List.filter (fun x => decide (x ≠ l)) b.w.cache.removed).contains l' = b.w.cache.removed.contains l' := by
-                rw [Bool.eq_iff_iff]; simp [List.mem_filter, hl]
-              simp [hl, member, this]
-        · simp only [hr]
-          have hnm : member b.w l = false := by simpa using hm
-          have hnr : l ∉ b.w.cache.removed := by simpa using hr
-          have hnm' := hnm
+            · unfold member; dsimp only; rw [contains_filter_ne hl]; simp [hl]
+        · have : linkOp b.w l = ({ b.w with cache := { b.w.cache with added := l :: b.w.cache.added, modified := true } }, .ok) := by
+            simp [linkOp, ha, hb, hm, hrm]
+          rw [this]; dsimp only; rw [hspec]
+          have hnm' := hm
           unfold member at hnm'
+          rw [contains_false hrm] at hnm'
           simp only [Bool.or_eq_false_iff, Bool.and_eq_false_iff] at hnm'
           have hfresh : b.w.txn.links l = false := by
             rcases hnm'.1 with h1 | h1
             · exact h1
-            · simp at h1; exact absurd h1 hnr
-          have hna : l ∉ b.w.cache.added := by simpa using hnm'.2
-          simp only [if_false, specStep, specApply]
+            · cases h1
+          have hna : l ∉ b.w.cache.added := by
+            intro hh; rw [contains_true hh] at hnm'; cases hnm'.2
           refine ⟨inv_links h.inv _ _ ?_ (List.nodup_cons.mpr ⟨hna, h.inv.addedNodup⟩) h.inv.removedIn, h.committed, ?_⟩
           · intro l' hl'
             rcases List.mem_cons.mp hl' with rfl | hl'
@@ -514,48 +581,62 @@ theorem link_sim {b : Both} (h : Sim b) (l : Link) : Sim (stepBoth b (.link l)) 
             · intro k; rfl
             · intro l'; by_cases hl : l' = l
               · subst hl; simp [member]
-              · simp [hl, member, List.contains_cons]
+              · simp [hl, member]
 
 theorem unlink_sim {b : Both} (h : Sim b) (l : Link) : Sim (stepBoth b (.unlink l)) := by
-  unfold stepBoth step unlinkOp
+  unfold stepBoth
+  rw [unlink_step]
+  have hspec : specStep b.s (.unlink l) .ok = { b.s with working := b.s.working.setLink l false } := rfl
   cases ha : alive b.w l.a with
-  | some e => simp [specStep]; exact h
+  | some e =>
+    have : unlinkOp b.w l = (b.w, .refused e) := by simp [unlinkOp, ha]
+    rw [this]; exact h
   | none =>
     cases hb : alive b.w l.b with
-    | some e => simp [specStep]; exact h
+    | some e =>
+      have : unlinkOp b.w l = (b.w, .refused e) := by simp [unlinkOp, ha, hb]
+      rw [this]; exact h
     | none =>
-      simp only []
-      by_cases hr : b.w.cache.removed.contains l = true
-      · simp only [hr, if_true, specStep, specApply]
-        have hrm : l ∈ b.w.cache.removed := by simpa using hr
+      by_cases hrm : l ∈ b.w.cache.removed
+      · have : unlinkOp b.w l = (b.w, .ok) := by simp [unlinkOp, ha, hb, hrm]
+        rw [this]; dsimp only; rw [hspec]
         refine ⟨h.inv, h.committed, ?_⟩
         apply link_view h l false
         · intro k; rfl
         · intro l'; by_cases hl : l' = l
           · subst hl
             have := added_not_removed h.inv hrm
-            simp [member, hr]; simpa using this
+            simp [member, hrm, this]
           · simp [hl]
-      · simp only [hr]
-        have hnr : l ∉ b.w.cache.removed := by simpa using hr
-        by_cases hm : member b.w l = true
-        · simp only [hm, Bool.not_true, if_false]
-          by_cases had : b.w.cache.added.contains l = true
-          · simp only [had, if_true, specStep, specApply]
-            have hadm : l ∈ b.w.cache.added := by simpa using had
+      · cases hm : member b.w l with
+        | false =>
+          have : unlinkOp b.w l = ({ b.w with cache := { b.w.cache with modified := true } }, .ok) := by
+            simp [unlinkOp, ha, hb, hrm, hm]
+          rw [this]; dsimp only; rw [hspec]
+          refine ⟨inv_links h.inv _ _ h.inv.addedFresh h.inv.addedNodup h.inv.removedIn, h.committed, ?_⟩
+          apply link_view h l false
+          · intro k; rfl
+          · intro l'; by_cases hl : l' = l
+            · subst hl; simpa [member] using hm
+            · simp [hl, member]
+        | true =>
+          by_cases hadm : l ∈ b.w.cache.added
+          · have : unlinkOp b.w l = ({ b.w with cache := { b.w.cache with added := b.w.cache.added.filter (· ≠ l), modified := true } }, .ok) := by
+              simp [unlinkOp, ha, hb, hrm, hm, hadm]
+            rw [this]; dsimp only; rw [hspec]
             refine ⟨inv_links h.inv _ _ (fun l' hl' => h.inv.addedFresh l' (List.mem_filter.mp hl').1)
-              (List.Nodup.filter _ h.inv.addedNodup) h.inv.removedIn, h.committed, ?_⟩
+              (List.Nodup.sublist List.filter_sublist h.inv.addedNodup) h.inv.removedIn, h.committed, ?_⟩
             apply link_view h l false
             · intro k; rfl
             · intro l'; by_cases hl : l' = l
               · subst hl; simp [member, h.inv.addedFresh l' hadm]
-              · have : (List.filter (fun x => decide (x ≠ l)) b.w.cache.added).contains l' = b.w.cache.added.contains l' := by
-                  rw [Bool.eq_iff_iff]; simp [List.mem_filter, hl]
-                simp [hl, member, this]
-          · simp only [had, if_false, specStep, specApply]
+              · unfold member; dsimp only; rw [contains_filter_ne hl]; simp [hl]
+          · have : unlinkOp b.w l = ({ b.w with cache := { b.w.cache with removed := l :: b.w.cache.removed, modified := true } }, .ok) := by
+              simp [unlinkOp, ha, hb, hrm, hm, hadm]
+            rw [this]; dsimp only; rw [hspec]
             have hin : b.w.txn.links l = true := by
               unfold member at hm
-              simp [had] at hm; exact hm.1
+              rw [contains_false hadm] at hm; simp at hm; exact hm.1
             refine ⟨inv_links h.inv _ _ h.inv.addedFresh h.inv.addedNodup ?_, h.committed, ?_⟩
             · intro l' hl'
               rcases List.mem_cons.mp hl' with rfl | hl'
@@ -564,15 +645,8 @@ theorem unlink_sim {b : Both} (h : Sim b) (l : Link) : Sim (stepBoth b (.unlink 
             · apply link_view h l false
               · intro k; rfl
               · intro l'; by_cases hl : l' = l
-                · subst hl; simpa [member] using had
-                · simp [hl, member, List.contains_cons]
-        · simp only [hm, Bool.not_false, if_true, specStep, specApply]
-          refine ⟨inv_links h.inv _ _ h.inv.addedFresh h.inv.addedNodup h.inv.removedIn, h.committed, ?_⟩
-          apply link_view h l false
-          · intro k; rfl
-          · intro l'; by_cases hl : l' = l
-            · subst hl; simpa [member] using hm
-            · simp [hl, member]
+                · subst hl; simp [member, hadm]
+                · simp [hl, member]
 
 theorem flush_sim {b : Both} (h : Sim b) : Sim (stepBoth b .flush) := by
   obtain ⟨w', ws, e, hi, _, ha, hc⟩ := flushIfModified_spec h.inv
